@@ -20,17 +20,23 @@ func init() {
 		{Pkg: "mime", Func: "ParseMediaType", Oracle: true},
 		{Pkg: "...", Func: "validateContentMediaType"},
 		{Pkg: "...", Func: "validateSigMediaType"},
+		// Refused, kept as documentation: `desc.Annotations[k] = v` (notation.go:286) on a by-value parameter whose map
+		// was replaced by a fresh one only under `if len(userMetadata) > 0` (aliasing rule is path-insensitive)
 		{Pkg: "...", Func: "addUserMetadataToDescriptor"},
 		// integrity classification (clause 4)
 		{Pkg: sig, Type: "Envelope", Opaque: true},
 		{Pkg: sig, Func: "ParseEnvelope", Oracle: true},
 		{Pkg: sig, Func: "Envelope.Verify", Oracle: true},
+		// Refused, kept as documentation: `switch err.(type)` over the error of Envelope.Verify() (verifier/verifier.go:731)
 		{Pkg: v, Func: "verifyIntegrity", NonNil: true},
 		// the skip decision of notation.Verify. Refused: `notation.ErrorNoApplicableTrustPolicy{Msg: err.Error()}`
 		// (method call on an error value, verifier/verifier.go:249) and reflect.DeepEqual(any, any) (:257)
 		{Pkg: tp, Func: "(*OCIDocument).GetApplicableTrustPolicy", Oracle: true},
 		{Pkg: v, Func: "(*verifier).SkipVerify"},
-		// the entry points
+		// The entry points. Refused, kept as documentation of what is outside the subset:
+		// verifier.Verify / VerifyBlob: the local &VerificationOutcome{} is handed to processSignature, which writes
+		// through it (verifier.go:379/382, 296/298); notation.VerifyBlob / getDescriptorFunc: depend on
+		// addUserMetadataToDescriptor; notation.Verify: registry.Repository interface (notation.go:479), callback :541
 		{Pkg: v, Func: "(*verifier).Verify"},
 		{Pkg: v, Func: "(*verifier).VerifyBlob"},
 		{Pkg: "...", Func: "VerifyBlob"},
